@@ -29,7 +29,7 @@ NV = 3
 CHECK_MV_ROUNDTRIP = os.environ.get("C08_MV_ROUNDTRIP", "1") == "1"
 # damaged model streams fed to serialize::lambda::load (D cases): needs the loader fixes of findings/C08.json
 # (branch wt2b-c08) in the tree; default off until they are in /repo, then make "1" the default
-CHECK_DAMAGED = os.environ.get("C08_DAMAGED", "0") == "1"
+CHECK_DAMAGED = os.environ.get("C08_DAMAGED", "1") == "1"
 WORD_RE = re.compile(r"^[A-Za-z_][A-Za-z_0-9]*$")
 
 
